@@ -317,10 +317,11 @@ EXPORT errno_t _wcsfc_s_chk(wchar_t *restrict dest, rsize_t dmax,
                     dmax--;
                 } else {
                 is_single:
-                    (void)_towfc_single(dest, _dec_w16((wchar_t *)src));
+                    /* _towfc_single stores two elements, only one may be left */
+                    (void)_towfc_single(tmp, _dec_w16((wchar_t *)src));
                     src++;
-                    /* even if not found dest[0] still contains towlower */
-                    dest++;
+                    /* even if not found tmp[0] still contains towlower */
+                    *dest++ = tmp[0];
                     dmax--;
                 }
             } else {
